@@ -92,7 +92,7 @@ type params struct {
 func (*prop) Cases(seed int64, tier string) []core.Case {
 	shards, nrand, per, maxLen := 16, 16, 2, 10
 	if tier == "thorough" {
-		shards, nrand, per, maxLen = 48, 64, 10, 14
+		shards, nrand, per, maxLen = 48, 128, 16, 14
 	}
 	var cs []core.Case
 	for i := 0; i < shards; i++ {
